@@ -157,7 +157,7 @@ func verifNewManager(ldb *leveldb.DB) *ldbManager {
 
 // ---- performance cuts for goleveldb's memdb skip list under the engine: node heights are always 1 (the list
 // stays ordered and correct, only its search cost changes) and its PRNG is never seeded.
-func verifModelRandHeight(p *memdb.DB) int            { return 1 }
+func verifModelRandHeight(p *memdb.DB) int              { return 1 }
 func verifModelNewSourceNil(seed int64) verifRandSource { return nil }
 
 type verifRandSource interface {
